@@ -16,7 +16,8 @@ func indCfgs(ctx *run.Ctx, ind *reg.Indicator, nrand int) []reg.Cfg {
 	out := []reg.Cfg{ind.Default}
 	for i := 1; i <= nrand; i++ {
 		cfg := ind.Rand(gen.New(ctx.Seed, fmt.Sprintf("cfg/%s/%d", ind.Name, i)))
-		cfg.Via = i%2 == 1 // every other random configuration is reached through the public fields of a default instance
+		cfg.Via = i%2 == 1      // every other random configuration is reached through the public fields of a default instance
+		cfg.Used = (i/2)%2 == 1 // and half of each kind is handed out after it has served another series
 		out = append(out, cfg)
 	}
 	return out
